@@ -776,7 +776,7 @@ package objects
 //@ spec swapOK(ph *Allocation, req *Allocation) bool = !req.placeholder && req.taskGroupName != "" && req.taskGroupName == ph.taskGroupName && (forall t Key :: rv(ph.allocatedResource, t) >= rv(req.allocatedResource, t))
 
 //@ func (sa *Application) tryPlaceholderAllocate(nodeIterator func() NodeIterator, getNodeFn func(string) *Node) (res *AllocationResult)
-//@   props C06
+//@   props C06 C01 C02
 //@   sweep
 //@   mode nopanic=off
 //@   loop 1: invariant phFit != nil || reqFit != nil ==> phFit != nil && reqFit != nil && swapOK(phFit, reqFit)
